@@ -1010,8 +1010,11 @@ def propagate_constants(tree):
                     b = getattr(node, fld, None)
                     if isinstance(b, list) and b and isinstance(b[0], ast.stmt):
                         for st in b:
-                            if isinstance(st, ast.Assign) and len(st.targets) == 1 and isinstance(st.targets[0], ast.Name) and isinstance(st.value, ast.Constant) \
-                                    and isinstance(st.value.value, (str, int)) and not isinstance(st.value.value, bool) \
+                            is_c = isinstance(st, ast.Assign) and isinstance(st.value, ast.Constant) and isinstance(st.value.value, (str, int)) and not isinstance(st.value.value, bool)
+                            # a tuple of string/number constants (`nonFinite = ("nan", "inf", "-inf")`) is as immutable as a constant
+                            is_t = isinstance(st, ast.Assign) and isinstance(st.value, ast.Tuple) and st.value.elts and all(
+                                isinstance(x, ast.Constant) and isinstance(x.value, (str, int, float)) and not isinstance(x.value, bool) for x in st.value.elts)
+                            if isinstance(st, ast.Assign) and len(st.targets) == 1 and isinstance(st.targets[0], ast.Name) and (is_c or is_t) \
                                     and stores.get(st.targets[0].id) == 1 and st.targets[0].id not in params:
                                 consts[st.targets[0].id] = st.value
                                 holders[st.targets[0].id] = (b, st)
@@ -1026,6 +1029,12 @@ def propagate_constants(tree):
             class P(ast.NodeTransformer):
                 def visit_Name(self, n):
                     if isinstance(n.ctx, ast.Load) and n.id in consts:
+                        if isinstance(consts[n.id], ast.Tuple):
+                            import copy
+                            t = copy.deepcopy(consts[n.id])
+                            for x in ast.walk(t):
+                                ast.copy_location(x, n)
+                            return t
                         return ast.copy_location(ast.Constant(value=consts[n.id].value), n)
                     return n
             for k in list(consts):
@@ -1497,6 +1506,26 @@ def flatten_boolops(tree):
                 changed = True
 
 
+def drop_unreachable_tails(tree):
+    """N26  statements that follow a `raise` / `return` / `continue` / `break` in the same block never run (left behind by the inlining
+    of a helper whose last statement raises: the `result = None` of its implicit fall-through)"""
+    for node in ast.walk(tree):
+        for fld in ("body", "orelse", "finalbody"):
+            b = getattr(node, fld, None)
+            if isinstance(b, list) and b and isinstance(b[0], ast.stmt):
+                for i, st in enumerate(b):
+                    if isinstance(st, (ast.Raise, ast.Return, ast.Continue, ast.Break)) and i + 1 < len(b):
+                        if not any(isinstance(x, (ast.FunctionDef, ast.ClassDef, ast.AsyncFunctionDef)) for t in b[i + 1:] for x in ast.walk(t)):
+                            del b[i + 1:]
+                        break
+        for h in getattr(node, "handlers", []) or []:
+            b = h.body
+            for i, st in enumerate(b):
+                if isinstance(st, (ast.Raise, ast.Return, ast.Continue, ast.Break)) and i + 1 < len(b):
+                    del b[i + 1:]
+                    break
+
+
 def apply(tree, helpers=True):
     split_parallel_assignments(tree)
     unroll_constant_loops(tree)
@@ -1509,6 +1538,7 @@ def apply(tree, helpers=True):
             Inliner(tree).run()
         except RecursionError:
             pass
+        drop_unreachable_tails(tree)
         boolify_tests(tree)
         # constant arguments substituted into an inlined helper: getattr(x, "min") / 'a' + ':type' spellings once more
         _FoldConst().visit(tree)
